@@ -124,11 +124,19 @@ def run(ctx):
         raise Infra("trace has %d rows, expected %d" % (len(answers), len(rows)))
 
     # (B) TLC judges the recorded answers
-    groups = {}
+    groups, slow = {}, []
     for p, a in zip(rows, answers):
         if a["re"] != p["re"]:
             raise Infra("trace row %d out of order" % a["id"])
+        if "watchdog" in (a["errlen"], a["errsuf"]):
+            # the analysis did not return within the harness' watchdog: nothing was computed, nothing to judge
+            # (promptness is not part of C18); reported in the evidence, too many of them is a generator problem
+            slow.append(a["re"])
+            continue
         groups.setdefault(_group(p), []).append(a)
+    if len(slow) > 20:
+        raise Infra("%d expressions ran into the analysis watchdog, e.g. %s" % (len(slow), slow[:3]))
+    judged = len(rows) - len(slow)
     by_id = {a["id"]: (p, a) for p, a in zip(rows, answers)}
     fails, oks = [], []
     with concurrent.futures.ThreadPoolExecutor(max_workers=2) as ex:
@@ -142,8 +150,8 @@ def run(ctx):
                 raise Infra("trace validation printed an unparsable line")
             fails += [p for p in res.prints if p.get("kind") == "fail"]
             oks += [p for p in res.prints if p.get("kind") == "ok"]
-    if len({p["id"] for p in oks}) != len(rows):
-        raise Infra("TLC judged %d of %d rows" % (len({p['id'] for p in oks}), len(rows)))
+    if len({p["id"] for p in oks}) != judged:
+        raise Infra("TLC judged %d of %d rows" % (len({p['id'] for p in oks}), judged))
 
     counts = {}
     fails.sort(key=lambda f: (f["what"], len(f["re"]), f["re"]))      # shortest expression becomes the replay
@@ -171,6 +179,7 @@ def run(ctx):
         "expressions": len(rows),
         "random_deeper_expressions": len(sim_rows),
         "max_size": max(p["size"] for p in rows), "max_depth": max(p["depth"] for p in rows),
+        "max_branches": max(p["branches"] for p in rows),
         "traces_validated_against_impl": len(oks),
         "evaluations": 2 * len(rows),
         "engine_words_accepted": summ["engine_accepts"],
@@ -181,6 +190,7 @@ def run(ctx):
         "witness_nonempty_suffix": sum(1 for p in oks if p["sufw"]),
         "with_assertions": sum(1 for p in rows if p["assert"]),
         "predicate_failures": counts,
+        "analysis_watchdog_expired": slow,
         "rule": "every distinct expression (by concrete syntax) of the TLC state graphs of Regex.tla for the tier's parameter "
                 "sets plus TLC -simulate random expressions; each is matched by the engine against all words of length <= L, "
                 "analysed by the real code, and judged by TLC; distinct_nontrivial = expressions with a non-empty Lang(r,L) "
